@@ -114,8 +114,9 @@ SwapCases(form, ty) ==
 RedForms == {"inplace", "conv", "decay"}   \* asum, nrm2: result into a variable / conversion / unary plus
 (* sx = "arr": the operand is an owning one-dimensional array instead of a view; k only numbers repetitions (fresh data) *)
 RedCases(op, form, ty) ==
-  {[D EXCEPT !.op = op, !.form = form, !.ty = ty, !.sx = sx, !.n = n, !.k = rep] :
-   sx \in VStr \cup {"arr"}, n \in VLens, rep \in (IF Quick THEN 0..1 ELSE 0..3)}
+  \* m: the magnitude class of the data (nrm2 only): 0 plain, 1 huge, 2 tiny -- the squares overflow / underflow, the norm does not
+  {[D EXCEPT !.op = op, !.form = form, !.ty = ty, !.sx = sx, !.n = n, !.k = rep, !.m = mag] :
+   sx \in VStr \cup {"arr"}, n \in VLens, rep \in (IF Quick THEN 0..1 ELSE 0..3), mag \in (IF op = "nrm2" THEN 0..2 ELSE {0})}
 IamaxForms == {"call", "range"}             \* iamax(x) / iamax(x.begin(), x.end())
 IamaxCases(form, ty) ==
   {[D EXCEPT !.op = "iamax", !.form = form, !.ty = ty, !.sx = sx, !.n = n, !.k = rep] :
